@@ -141,6 +141,16 @@ def locate_statements():
             break
     if not got:
         missing.append("AsyncResult.value:w10")
+    # AsyncResult.add_callback: its readiness test (not a model action: logged as a `note`, which makes the line after it
+    # -- the append -- a scheduling point, so the registration can race with a publication by another thread)
+    try:
+        node, off = _func_ast(AsyncResult.add_callback)
+        for st in ast.walk(node):
+            if isinstance(st, ast.If) and any(_is_self_attr(n, "_is_ready") for n in ast.walk(st.test)):
+                put(AsyncResult.add_callback, st.lineno, off, "a0", "pre")
+                break
+    except Exception:  # noqa
+        pass
     # AsyncResult.set_expiry: the store to _ttl
     node, off = _func_ast(AsyncResult.set_expiry)
     got = False
@@ -189,6 +199,7 @@ def locate_statements():
         fn = getattr(Connection, name, None)
         if fn is not None:
             targets.add(fn.__code__)
+    targets.add(AsyncResult.add_callback.__code__)
     for fn in (Connection.serve, Connection._dispatch, Connection._seq_request_callback, Connection._async_request,
                Connection.async_request, Connection._get_seq_id, Connection.sync_request, Connection.poll,
                Connection.poll_all, AsyncResult.ready.fget, AsyncResult.wait,
@@ -356,6 +367,8 @@ class Sched:
                                    t.tmax if t.finite else None)
                     obs = ("exit" if t.expired() else "loop") if isinstance(t, Timeout) else "?"
                     self.log(th, label, obs)
+                elif when == "pre" and label == "a0":
+                    self.log_env("note:%d:a0:%s" % (th.ltid, self._observe_pre(label, frame)), "a0", None, th)
                 elif when == "pre":
                     obs = self._observe_pre(label, frame)
                     self.log(th, label, obs)
@@ -376,6 +389,8 @@ class Sched:
             return "%d:%d" % (run.seq_of(me), run.payload_of(run.arg_of(frame, "obj")))
         if label == "d5":
             return "%d" % run.seq_of(me)
+        if label == "a0":
+            return "ready" if me._is_ready else "notready"
         if label == "w0":
             return "loop" if (not me._is_ready and not me._ttl.expired()) else "exit"
         if label == "d2":
@@ -393,7 +408,8 @@ class Sched:
         if when == "post":                      # c3
             me = frame.f_locals.get("self")
             ttl = me._ttl
-            self.log(th, label, fmt_t(ttl.tmax if ttl.finite else None))
+            if ttl.finite:                      # set_expiry(negative) leaves the result without expiry: not a model step
+                self.log(th, label, fmt_t(ttl.tmax))
         elif isinstance(when, tuple) and when[0] == "published":
             self.run.note_published(when[1])
         elif isinstance(when, tuple) and when[0] == "local":
@@ -710,6 +726,8 @@ class LoggingCounter:
                 th.lstack.append(lt)
             me = th.ltid
             tmo = self.run.current_tmo.get(me)
+            if tmo is not None and tmo < 0:
+                tmo = None              # Timeout(negative) is infinite: the call has no expiry (set_expiry is a no-op then)
             self.run.issued.append((me, v))
             self.sched.log_env("call:%d:%s:%d" % (me, "n" if tmo is None else tmo, v), "call", (me, v), th)
         return v
@@ -760,7 +778,8 @@ class Run:
     """one execution of a case under a chooser.
 
     case = dict(clients=[[tmo, tmo, ...], ...]   one list of calls (timeout or None) per client thread,
-                bg=bool, exc=[seqs answered with MSG_EXCEPTION], sleep=int (bg sleep interval, virtual units),
+                bg=bool or number of background threads, stop_bg=bool (BgServingThread.stop() may be requested at any
+                moment), exc=[seqs answered with MSG_EXCEPTION], sleep=int (bg sleep interval, virtual units),
                 dup=[seqs whose reply the peer sends twice]  (oracle search only; outside the model))
                 pollers=[[d | "ready", ...], ...]  one program per polling thread (conn.poll_all(d) / AsyncResult.ready),
                 eof=bool (the peer may close the stream), early_tick=bool,
@@ -806,6 +825,7 @@ class Run:
         self.blocked_at_end = []
         self.conn = None
         self.bgt = None
+        self.bgts = {}              # tid -> BgServingThread object (case["bg"] may be a number of background threads)
         self.answered = {}
         self.eof_at = None
 
@@ -1080,6 +1100,7 @@ class Run:
         bgt._thread = None
         bgt.SLEEP_INTERVAL = self.case.get("sleep", 1)     # virtual time units (instance attribute)
         self.bgt = bgt
+        self.bgts[tid] = bgt
         self.sched.log_env("bg:%d" % tid, "bg", tid)
         return bgt._bg_server
 
@@ -1089,7 +1110,7 @@ class Run:
         n = self.answered.get(seq, 0)
         self.answered[seq] = n + 1
         exc = seq in self.case.get("exc", ())
-        val = payload_for(seq, n)
+        val = payload_for(seq, 0)           # a repeated answer (case["dup"]) is the same answer
         fid = len(self.frames_sent)
         handler = self.handler_of.get(seq, consts.HANDLE_PING)
         if handler in (consts.HANDLE_REPR, consts.HANDLE_STR):
@@ -1113,7 +1134,7 @@ class Run:
             data = brine.dump((consts.MSG_REPLY, seq, (consts.LABEL_VALUE, val)))
         self.frames_sent.append((fid, seq, exc, val))
         self.chan.frames.append((fid, data))
-        self.sched.log_env("peer:%d:%d:%d" % (seq, 1 if exc else 0, val), "peer", (seq, fid))
+        self.sched.log_env("%s:%d:%d:%d" % ("peer" if n == 0 else "dup", seq, 1 if exc else 0, val), "peer", (seq, fid))
         if seq in self.case.get("dup", ()) and n == 0:
             self.outstanding.append(seq)         # a second, identical-seq reply will follow (outside the model)
 
@@ -1148,14 +1169,15 @@ class Run:
             for j, program in enumerate(pollers):
                 s.spawn(n + 1 + j, self.poller_fn(n + 1 + j, program))
             bg_tid = None
-            if self.case.get("bg"):
-                bg_tid = n + len(pollers) + 1
+            for j in range(int(self.case.get("bg") or 0)):
+                bg_tid = n + len(pollers) + 1 + j
                 s.spawn(bg_tid, self.bg_fn(bg_tid), is_bg=True)
             current = None
             while True:
                 clients_done = all(s.threads[t].state == "done" for t in range(1, n + 1))
-                if clients_done and bg_tid is not None and self.bgt._active:
-                    self.bgt._active = False
+                if clients_done:
+                    for b in self.bgts.values():
+                        b._active = False
                 if self.table_replaced is None and self.conn._request_callbacks is not self.cb_table:
                     self.table_replaced = len(s.trace)      # the callbacks table object was rebound during the run
                 if all(th.state == "done" for th in s.threads.values()):
@@ -1171,6 +1193,9 @@ class Run:
                     peer = peer + ["E"]
                 if self.unrelated_sent < self.case.get("unrelated", 0) and not self.chan.eof and not clients_done:
                     peer = peer + ["U"]
+                if self.case.get("stop_bg") and not clients_done:
+                    # BgServingThread.stop() from another thread, at any moment: it clears `_active` (the join is not modelled)
+                    peer = peer + ["S%d" % t for t, b in sorted(self.bgts.items()) if b._active]
                 nd = s.next_deadline()
                 opts = en + peer
                 if not opts:
@@ -1199,6 +1224,9 @@ class Run:
                     self.peer_eof()
                 elif choice == "U":
                     self.peer_unrelated()
+                elif choice[0] == "S":
+                    self.bgts[int(choice[1:])]._active = False
+                    s.log_env("note:%s:stop-requested" % choice[1:], "stop-requested", int(choice[1:]))
                 elif choice[0] == "P":
                     self.peer_answer(int(choice[1:]))
                 else:
@@ -1229,8 +1257,8 @@ class Run:
                 rpyc.lib.time, rpyc.utils.helpers.time = saved_lib, saved_helpers
                 if self.conn is not None:
                     self.conn._closed = True
-                if self.bgt is not None:
-                    self.bgt._active = False
+                for b in self.bgts.values():
+                    b._active = False
                 # drop by-reference results now, in this thread (their finalizers call async_request)
                 del self.keepalive[:]
                 for cell in list(self.cells.values()):
@@ -1438,6 +1466,8 @@ def calls_of(run):
         tmo = calls[k] if k < len(calls) else run.current_tmo.get(tid)
         if isinstance(tmo, (tuple, list)):
             tmo = tmo[1]
+        if tmo is not None and tmo < 0:
+            tmo = None
         res = run.results.get(tid, [])
         r = res[k] if k < len(res) else None
         t_issue = next((e[4] for e in ev if e[2] == "call" and e[3] == (tid, seq)), None)
@@ -1519,6 +1549,26 @@ def stalls_of(run):
         out.append(dict(tid=w, seq=c["seq"], receiver=r, t_dispatch=t_d, t_return=c["t_return"], tmo=c["tmo"],
                         blocked_in=e[3][2], signature=sig, shape=shape + note, at=e[0], inspect=inspect_only))
     return out
+
+
+# set by the property modules from gen_async.measure_registration_atomic (the measured Gen.Async.addCallbackAtomic): while
+# add_callback's test-then-append is not atomic w.r.t. the publication, a lost callback is C15's finding, counted only
+ADD_CALLBACK_ATOMIC = True
+
+
+def lost_callbacks(run):
+    return [(tid, rid) for (tid, rid, res) in run.callback_expected
+            if run.callback_log.count((tid, rid)) == 0 and res._is_ready and run.outcome == "finished"]
+
+
+def measure_add_callback_atomic():
+    global ADD_CALLBACK_ATOMIC
+    try:
+        import gen_async
+        ADD_CALLBACK_ATOMIC = bool(gen_async.measure_registration_atomic(_async_mod))
+    except Exception:  # noqa
+        ADD_CALLBACK_ATOMIC = False
+    return ADD_CALLBACK_ATOMIC
 
 
 SIG_DRAIN = "C14:ready-poll-keeps-serving-after-own-reply"
@@ -1655,7 +1705,10 @@ def c13_violations(run):
         out.append(("C13:blocked-past-own-expiry", st["shape"]))
     for (tid, rid, res) in run.callback_expected:
         n = run.callback_log.count((tid, rid))
-        if n > 1 or (n == 0 and res._is_ready and run.outcome == "finished"):
+        lost = n == 0 and res._is_ready and run.outcome == "finished"
+        if lost and not ADD_CALLBACK_ATOMIC:
+            continue        # the registration/publication race of add_callback is present on this tree (C15's finding)
+        if n > 1 or lost:
             out.append(("C13:callback-count", "thread %d: the callback of a completed request ran %d times" % (tid, n)))
     for tid, err in sorted(getattr(run, "thread_errors", {}).items()):
         out.append(("C13:thread-died", "thread %d: %s" % (tid, err)))
